@@ -18,7 +18,7 @@ import json
 import os
 from multiprocessing import Pool
 
-from . import common, faultlib as F, oracle
+from . import common, faultlib as F, gen, oracle
 
 PROP = "C04"
 MAX_VIOLATIONS = 5          # replay files written per run; further failing points are only counted
@@ -113,9 +113,9 @@ def _ph(*names):
 
 FINDINGS = {
     "tmp_left": [("tmp_left_behind", _is_tmp_op)],
-    # clause = failure after the first completed content edit: ANY later fault point (the renames are rolled back, the
-    # rewritten files are not), or a stale plan
-    "content_new_kept": [("content_not_rolled_back", lambda pt, obs: True)],
+    # clause = failure after the first completed content edit CAUSED BY an injected fault (any later fault point: the renames
+    # are rolled back, the rewritten files are not) or by a stale plan.  A failing run with neither is not this finding.
+    "content_new_kept": [("content_not_rolled_back", lambda pt, obs: pt is not None or obs.get("_perturb") is not None)],
     "paths_moved": [
         ("rollback_nested_fails", lambda pt, obs: pt is not None and "Rollback encountered errors" in obs["stderr"]),
         ("log_failure_skips_rollback", lambda pt, obs: pt is not None and pt.get("phase") == "renames" and pt["op"] == "log"
@@ -158,6 +158,7 @@ def replay_case(sc, pt, errno, perturb=None):
 def judge(ctx, sc, plan, exp_tree, pt, errno, obs, model, perturb=None, quiet_known=False):
     """oracle + classification + model comparison for one observed run.  Returns the list of slugs seen."""
     obs["_plan"] = plan
+    obs["_perturb"] = perturb
     cmd = sc["cmd"]
     holds, comps, facts = components(obs, exp_tree, cmd)
     diffs = F.compare_state(obs, model, cmd) if model else [("model", "no answer")]
@@ -201,6 +202,17 @@ def judge(ctx, sc, plan, exp_tree, pt, errno, obs, model, perturb=None, quiet_kn
             ctx.violation("fault", case, expected="(finding not listed in KNOWN_FINDINGS.txt)", observed=observed,
                           note=f"failure shape {s} is not a listed finding")
             return ["VIOLATION"]
+    return out
+
+
+def c11_tree(tree):
+    """tree of a replay file (JSON lists, text as str) -> materialize() form"""
+    out = {}
+    for k, v in tree.items():
+        v = tuple(v)
+        if v[0] == "f" and isinstance(v[1], str):
+            v = ("f", v[1].encode("utf-8") if not v[1].startswith("hex:") else bytes.fromhex(v[1][4:]), v[2])
+        out[k] = v
     return out
 
 
@@ -302,7 +314,10 @@ def run(ctx):
                        "multi-byte text) x {rename -y, plan+apply, redo, replace} x {fresh, one earlier history entry}; for each "
                        "scenario EVERY mutating libc call of the real trace fails once (errno EIO; thorough: EIO, ENOSPC, EACCES); "
                        "plus stale-plan perturbations (edited, truncated, deleted, latin-1, replaced by a directory, destination "
-                       "occupied) on the first and the last edited file. non-trivial = a fault was injected or the plan is stale; "
+                       "occupied) on the first and the last edited file; plus the family 'refused for a reason that is only detected late': "
+                       "plan, apply, [undo], [redo], then the same plan again by id / from the saved plan file, through the CLI and "
+                       "in-process (no fault, no stale file: any change on failure is a violation). non-trivial = a fault was "
+                       "injected, the plan is stale, or the plan id is already recorded; "
                        "distinct = (scenario, k, errno)")
     ctx.assumptions += ["POSIX semantics of the eight mutating calls as written in RModel.Model.Exec.execOp",
                         "a process killed or failing at call k has issued exactly the calls before k (single mutating thread; confirmed by the shim)",
@@ -355,6 +370,8 @@ def run(ctx):
                 continue
             items.append((pt, en, obs))
         flush()
+        # refusals that must come early ----------------------------------------------------------------------
+        late_refusals(ctx, pool)
         # stale plans ---------------------------------------------------------------------------------
         for sc in [s for s in scs if s["cmd"] == "apply"]:
             plan, pre0 = F.plan_of(sc)
@@ -375,6 +392,101 @@ def run(ctx):
                 judge(ctx, sc, plan, exp_tree if prob is None else None, None, None, obs, m, perturb=p)
 
 
+def late_refusals(ctx, pool):
+    """Scenario family "apply refused for a reason that is only detected late": the plan's id is already in the history
+    (the operation is still applied, was undone, or was undone and redone) and the plan is applied AGAIN, by id or from
+    the saved plan file, through the CLI and in-process.  No fault is injected and no file is stale, so no listed
+    finding can explain a failure that changed something."""
+    jobs = F.late_jobs(ctx.thorough)
+    res = pool.map(F.run_late, jobs)
+    for job, obs in zip(jobs, res):
+        ctx.case(("late", job["name"]))
+        ctx.count("late:" + job["seq"] + "/" + job["how"])
+        if "setup_error" in obs:
+            ctx.broke("machinery", "late setup", obs["setup_error"])
+            continue
+        judge_late(ctx, job, obs)
+        # the model's prediction for `apply <id>` after undo (driver cmd `reapply`)
+        if job["seq"] == "undo" and job["how"] == "id":
+            sc = {"name": job["name"], "tree": job["tree"], "cmd": "reapply", "setup": "fresh"}
+            m = F.parse_model(common.run_model([F.model_request(sc, obs["plan"], obs["pre0"]["tree"], ("none",))])[0])
+            ctx.cov["disagreements_checked"] += 1
+            diffs = F.compare_state(obs, m, "reapply") if m else [("model", "no answer")]
+            if m and F.show(obs["groups"]) != m["ops"]:
+                diffs.append(("trace", m["ops"][-8:], F.show(obs["groups"])[-8:]))
+            if diffs and not any(b["name"] == "late refusal: exectrace reapply vs real run" for b in ctx.broken):
+                ctx.broke("correspondence", "late refusal: exectrace reapply vs real run",
+                          {"sequence": obs["commands"], "diff": diffs})
+    # in-process: the same sequences through the real apply_plan / undo_renaming / redo_renaming
+    T = F.late_trees()
+    reqs, meta = [], []
+    names = ["e3r2nest", "e3r0", "ronly"] + (["e2r3nest"] if ctx.thorough else [])
+    for n in names:
+        sc = {"name": n, "tree": T[n], "cmd": "apply", "setup": "fresh"}
+        plan, pre0 = F.plan_of(sc)
+        tree = gen.snap_to_tree(pre0["tree"])
+        hunks = [(m["file"], m["content"], m["replace"], m["start"], m["end"]) for m in plan["matches"]]
+        rens = [("d" if r["kind"] == "dir" else "f", r["path"], r["new_path"]) for r in plan["paths"]]
+        for seq in ("undo", "redo", "applied"):
+            reqs.append(" ".join(["lateapply", seq] + gen.wire_tree(tree) + gen.wire_hunks(hunks) + gen.wire_rens(rens)))
+            meta.append((n, seq))
+    try:
+        outs = common.run_impl(reqs)
+    except RuntimeError as ex:
+        ctx.broke("machinery", "vharness lateapply", str(ex))
+        return
+    for (n, seq), req, out in zip(meta, reqs, outs):
+        ctx.case(("late-inproc", n, seq))
+        ctx.count("late-inproc:" + seq)
+        f = out.split(" ")
+        if out.strip() == "bad-op":
+            # harness/src/main.rs does not list ops_c04late yet (wiring): the CLI half of the family has run
+            if "vharness op `lateapply` not wired: in-process half of the late-refusal family skipped" not in ctx.notes:
+                ctx.notes.append("vharness op `lateapply` not wired: in-process half of the late-refusal family skipped")
+            continue
+        if len(f) < 5 or f[0] != "ok":
+            ctx.broke("machinery", "vharness lateapply", out[:200])
+            continue
+        outcome, tree_same, hist_same = f[1], f[2] == "1", f[3] == "1"
+        if outcome != "ok" and not (tree_same and hist_same):
+            if len(ctx.violations) < MAX_VIOLATIONS:
+                ctx.violation("history", {"late_inproc": {"tree": n, "seq": seq}, "request": req,
+                                          "sequence": ["apply_plan(plan p1)"] + {"undo": ["undo_renaming(p1)"], "redo": ["undo_renaming(p1)", "redo_renaming(p1)"], "applied": []}[seq]
+                                          + ["apply_plan(plan p1) again"]},
+                              expected="the second apply_plan is refused with the tree and the history unchanged (or succeeds completely)",
+                              observed={"outcome": outcome, "tree_unchanged": tree_same, "history_unchanged": hist_same, "history": f[4]},
+                              note="in-process: a failed apply changed the tree or the history although no fault was injected and no file is stale")
+        ctx.sample({"late_inproc": n + "/" + seq, "answer": " ".join(f[:5])}, limit=8)
+
+
+def judge_late(ctx, job, obs):
+    pre, post = obs["pre"], obs["post"]
+    rc = obs["rc"]
+    tree_same = post["tree"] == pre["tree"]
+    hist_same = (post["hist_state"], post["hist"]) == (pre["hist_state"], pre["hist"])
+    ctx.count("late_rc:" + F.rc_class(rc))
+    ok = True
+    if rc != 0:
+        ok = tree_same and hist_same
+    else:
+        # a success must be a complete, recorded apply
+        exp, prob = oracle.expected_tree(pre["tree"], obs["plan"], "/")
+        ok = prob is None and post["tree"] == exp and post["hist_state"] == "ok" and len(post["hist"]) == len(pre["hist"]) + 1
+    if ok:
+        return
+    if len(ctx.violations) >= MAX_VIOLATIONS:
+        ctx.count("violations_not_reported_individually")
+        return
+    ctx.violation("history", {"late": {"name": job["name"], "tree": {k: list(v) for k, v in job["tree"].items()},
+                                       "seq": job["seq"], "how": job["how"]}, "sequence": obs["commands"]},
+                  expected="the last command is refused with the user tree and the history exactly as they were (or succeeds: whole plan applied, one new entry)",
+                  observed={"rc": rc, "stderr": obs["stderr"], "tree_unchanged": tree_same, "history_unchanged": hist_same,
+                            "tree_diff": common.snap_diff(pre["tree"], post["tree"]),
+                            "history_before": pre["hist"], "history_after": [post["hist_state"], post["hist"]]},
+                  note="a failed apply changed the tree or the history although NO fault was injected and NO file is stale: "
+                       "not content_not_rolled_back (whose clause needs one of the two), the refusal came too late")
+
+
 def replay(ctx, path):
     obj = json.load(open(path))
     case = obj["case"]
@@ -384,6 +496,24 @@ def replay(ctx, path):
         return
     if isinstance(case, list):          # an `obligation` replay file: nothing to re-run but the whole check
         print(json.dumps(obj, indent=1)[:3000])
+        return
+    if "late" in case:
+        lt = case["late"]
+        job = {"name": lt["name"], "tree": c11_tree(lt["tree"]), "seq": lt["seq"], "how": lt["how"]}
+        obs = F.run_late(job)
+        if "setup_error" in obs:
+            ctx.broke("machinery", "late setup", obs["setup_error"])
+            return
+        judge_late(ctx, job, obs)
+        print("replayed:", " ; ".join(obs["commands"]), "-> rc", obs["rc"], "tree unchanged", obs["post"]["tree"] == obs["pre"]["tree"],
+              "history unchanged", obs["post"]["hist"] == obs["pre"]["hist"])
+        return
+    if "late_inproc" in case:
+        out = common.run_impl([case["request"]])[0]
+        f = out.split(" ")
+        print("replayed in-process:", case["sequence"], "->", " ".join(f[:5]))
+        if len(f) >= 5 and f[0] == "ok" and f[1] != "ok" and not (f[2] == "1" and f[3] == "1"):
+            ctx.violation("history", case, expected=obj.get("expected"), observed=" ".join(f[:5]))
         return
     slugs = replay_one(ctx, case)
     print("replayed:", case.get("scenario"), case.get("op"), case.get("k"), case.get("mode"), case.get("errno"), case.get("perturb"),
